@@ -503,13 +503,6 @@ func init() {
 			},
 		},
 		Class{
-			ID:   "C01-hash-escaped-newline",
-			What: "'#' directly followed by an escaped newline inside a word (the rest of the word is printed in a different place)",
-			Match: func(c *Ctx) bool {
-				return strings.Contains(c.Src, "#\\\n") || strings.Contains(c.Src, "#\\\r\n")
-			},
-		},
-		Class{
 			ID:   "C01-redirect-extglob-word",
 			What: "an extended glob in a redirection word, or anywhere in a simple command that has an assignment prefix: printed after the assignment, where the parser rejects it (a=b >?(x), a= >f @(x))",
 			Match: func(c *Ctx) bool {
@@ -659,6 +652,18 @@ func ParenAdjacent(n syntax.Node) bool {
 			stmts = x.Stmts
 		}
 		if len(stmts) > 0 && (edge(stmts[0], true) || edge(stmts[len(stmts)-1], false)) {
+			return true
+		}
+	}
+	return false
+}
+
+// MultilineArray reports whether n holds an array literal written over
+// several source lines (lone printing of such a node inserts escaped newlines
+// and indentation inside neighbouring words).
+func MultilineArray(n syntax.Node) bool {
+	for _, it := range norm.Enumerate(n) {
+		if a, ok := it.Node.(*syntax.ArrayExpr); ok && a.Rparen.Line() > a.Lparen.Line() {
 			return true
 		}
 	}
